@@ -82,7 +82,33 @@ inductive CKind where
   | boundMethod
   | partialObj    -- functools.partial (no `__module__`/`__qualname__`)
   | wrapsBuiltin  -- `functools.wraps(builtin)(wrapper)`: carries the built-in's `__module__`/`__qualname__` but is another object
+  | wrapsVisible  -- `functools.wraps(g)(wrapper)` for a supplied-module function `g` that IS visible from celpy.evaluation
+  | equalToAll    -- callable instance carrying a built-in's `__module__`/`__qualname__` whose `__eq__` answers True to everything
+  | renamedDef    -- nested `def` whose `__module__`/`__qualname__` were overwritten with those of a built-in
   deriving DecidableEq, Repr, Inhabited
+
+/-- what the text `module.qualname` of a callable denotes when `func_name` walks it from celpy.evaluation's `globals()` -/
+inductive Denotes where
+  | nothing                -- the walk fails: root is no global of celpy.evaluation, `<locals>`, `<lambda>` (KeyError / AttributeError)
+  | self                   -- the very object
+  | other (equal : Bool)   -- ANOTHER object (the wrapped function, a namesake); `equal`: it compares `==` to the callable
+  deriving DecidableEq, Repr
+
+/-- the callable has both `__module__` and `__qualname__` (functions and methods have; plain callable instances and
+`functools.partial` objects have not: AttributeError, caught by `func_name`) -/
+def CKind.qualified : CKind → Bool
+  | .callableObj | .partialObj => false
+  | _ => true
+
+def CKind.denotes : CKind → Denotes
+  | .evalVisible => .self
+  | .moduleDef | .mainDef | .nestedDef | .lambda | .callableObj | .boundMethod | .partialObj => .nothing
+  | .wrapsBuiltin | .wrapsVisible | .renamedDef => .other false
+  | .equalToAll => .other true
+
+/-- `Phase1Transpiler.func_name`: the dotted text is emitted iff the attributes exist, the walk succeeds and
+`target is func` — IDENTITY (`Cel.Bridge.Funcs.func_name_shape`), not equality and not "wraps it". -/
+def funcNameDirect (k : CKind) : Bool := k.qualified && decide (k.denotes = .self)
 
 structure Callable where
   pyName : Option String      -- `f.__name__` (absent on plain callable objects and partials)
@@ -147,7 +173,10 @@ structure Fn where
 def Fn.logOf (fn : Fn) (f : String) (vs : List Val) : Log := if fn.host then [(f, vs)] else []
 
 /-- `Phase1Transpiler.func_name`: dotted text only when it denotes the object in celpy.evaluation's globals -/
-def Callable.toFn (c : Callable) : Fn := ⟨decide (c.kind = .evalVisible), c.fn, !c.builtin⟩
+def Callable.toFn (c : Callable) : Fn := ⟨funcNameDirect c.kind, c.fn, !c.builtin⟩
+
+theorem funcNameDirect_iff (k : CKind) : funcNameDirect k = true ↔ k = .evalVisible := by
+  cases k <;> simp [funcNameDirect, CKind.qualified, CKind.denotes]
 
 /-- `except (C₁, C₂, …)`: does the handler catch an exception of class `e`?  `.other` in the list stands for
 `except Exception`, which catches every class. -/
